@@ -45,6 +45,9 @@ func TestVerifC12(t *testing.T) {
 			sels = append(sels, sel{g, "g_sub_second"}, sel{g, "g_irregular_time"})
 		}
 	}
+	if x := vGenExtraRoot(); x != "" {
+		sels = append(sels, sel{x, "x_ts_10mhz"})
+	}
 	sels = append(sels, sel{vBundledRoot, "WAVE/vectors/cfhd_sets/14.985_29.97_59.94/t1/2022-10-17"})
 	if !quick {
 		sels = append(sels, sel{vBundledRoot, "testpic_8s"})
